@@ -70,8 +70,8 @@ Proof. unfold TRv. tauto. Qed.
 
 Lemma cmp_ext_TRv a b c : TRv (cmp_ext a b) (cmp_ext b c) (cmp_ext a c).
 Proof.
-  destruct a as [a|], b as [b|], c as [c|]; cbn [cmp_ext]; try apply Zcompare_TRv;
-    unfold TRv; repeat split; intros; try congruence.
+  destruct a as [|a| |], b as [|b| |], c as [|c| |]; cbn [cmp_ext erank]; try apply Zcompare_TRv;
+    unfold TRv; cbn; repeat split; intros; try congruence; try reflexivity.
 Qed.
 Lemma cmp_ext_AS a b : cmp_ext b a = CompOpp (cmp_ext a b).
 Proof. destruct a, b; cbn; auto. apply Z.compare_antisym. Qed.
@@ -166,7 +166,7 @@ Qed.
 Lemma cmpn_refl x : cmpn x x = Eq.
 Proof.
   induction x using val_ind'; rewrite cmpn_eq, !Z.compare_refl; cbn [thenc cmpn_body body_scalar numkey];
-    try reflexivity; try apply Z.compare_refl; try apply cmp_str_refl.
+    try reflexivity; try apply Z.compare_refl; try apply cmp_str_refl; try apply cmp_ext_refl.
   - apply (lexp_refl (fun x => x) cmpn). exact H.
   - apply (lexp_refl (fun x => x) cmpn). exact H.
   - rewrite (lexp_refl fst cmpn); [cbn; apply (lexp_refl snd cmpn); eapply Forall_impl; [|exact H]; intros kv [_ Hv]; exact Hv |].
@@ -228,6 +228,12 @@ Lemma cmp_int_float f g t : cmp (VNum f t) (VNum g t) = 0.
 Proof. unfold cmp, cmpc. cbn. rewrite Z.compare_refl. reflexivity. Qed.
 Lemma cmp_nan_above_finite i f t : cmp (VNaN i) (VNum f t) = 1 /\ cmp (VNum f t) (VNaN i) = -1.
 Proof. split; reflexivity. Qed.
+(* NaN ranks above +inf and -inf as well; -inf < every finite number < +inf; an infinity equals itself only *)
+Lemma cmp_nan_above_inf i b : cmp (VNaN i) (VInf b) = 1 /\ cmp (VInf b) (VNaN i) = -1.
+Proof. destruct b; split; reflexivity. Qed.
+Lemma cmp_inf_order f t : cmp (VInf true) (VNum f t) = -1 /\ cmp (VNum f t) (VInf false) = -1 /\ cmp (VInf true) (VInf false) = -1 /\
+  cmp (VInf false) (VInf false) = 0 /\ cmp (VInf true) (VInf true) = 0.
+Proof. repeat split; reflexivity. Qed.
 Lemma cmp_nan_nan i j : cmp (VNaN i) (VNaN j) = 0.
 Proof. reflexivity. Qed.
 Lemma cmp_num f g a b : cmp (VNum f a) (VNum g b) = c2z (Z.compare a b).
